@@ -99,11 +99,24 @@ of known_findings.json (the check prints it as KNOWN-FINDING on every run), othe
   precede it; the next writes are its own `d.debounceTimer = nil` (program order) and a later
   `debouncedDiscover` that writes only after observing `nil` under the lock, i.e. after this goroutine's unlock.
   The ordering depends on the value read, which no lock discipline expresses. -/
-def exceptions : List RSite := [
-  ⟨"Driver", "debounceTimer", "Driver.debouncedDiscover$1", "driver.go:757"⟩
+structure RExc where
+  struct : String
+  field : String
+  func : String
+  write : Bool
+deriving DecidableEq, Repr
+
+/-- identified by what it is (the lock-free read of that field in that closure), not by its line number: comments and
+blank lines above it do not move it -/
+def exceptions : List RExc := [
+  ⟨"Driver", "debounceTimer", "Driver.debouncedDiscover$1", false⟩
 ]
 
 def siteOf (a : Access) : RSite := ⟨a.struct, a.field, a.func, a.pos⟩
+
+def matchesExc (e : RExc) (a : Access) : Bool :=
+  e.struct == a.struct && e.field == a.field && e.func == a.func && e.write == a.write && a.held.isEmpty && !a.atomic
+def isException (a : Access) : Bool := exceptions.any (matchesExc · a)
 
 def isPostFork (a : Access) : Bool := postForkSites.contains (siteOf a)
 def isChanClose (a : Access) : Bool := chanCloses.contains (siteOf a)
